@@ -21,15 +21,16 @@ RULE = ("docstrings are assembled from labelled building blocks: prose (also goo
         "unprefixed body incl. a blank line, with '...' body, old style with terminating bare '...', comment, directive "
         "comment, ';' line, backslash continuation, three-line nested brackets, string holding a prompt}, wants of 1..3 "
         "lines (numbers, reprs, words, traceback header + lines, <BLANKLINE>, 'text ... more', bare '...' directly under a "
-        "'>>>' line, extra-indented lines), indentation levels 0/2/4/8 changing between blocks.  A docstring is non-trivial "
+        "'>>>' line, extra-indented lines), indentation levels 0/2/4/8 changing between blocks and directly under a want.  A docstring is non-trivial "
         "when it holds all three labels; distinct by text hash.  Real docstrings (repo, stdlib, site-packages) are checked "
         "with the structural contract only")
 ASSUMPTIONS = [
     "comparison is up to trailing blank lines (the re-join in parse drops them)",
     "a source/want line may have lost its chunk's indentation (blanks of one common width per part); an unprefixed "
     "string-body line may have gained '... '",
-    "indentation changes only across a blank line; a prompt directly under source at another indentation, and prose "
-    "directly under source at the same indentation (a want by definition), are not generated as labelled cases",
+    "indentation changes across a blank line or directly under a want; prose directly under source at the same "
+    "indentation (a want by definition) is not generated as a labelled case; a prompt directly under SOURCE at another "
+    "indentation is generated only by the directed probes of finding F15",
     "wants do not start with '>>>' or '... '; a bare '...' is a want only directly under a '>>>' line (after a '...' "
     "continuation it terminates an old-style statement and is source)",
     "real-corpus docstrings that raise DoctestParseError are counted, not judged (C14 covers containment)",
@@ -44,7 +45,8 @@ TRANSITIONS = ['text>text', 'text>src', 'src>src', 'src>want', 'src>text', 'want
 
 def required_cells(tier):
     return (['shape:' + s for s in SHAPES] + ['want:' + w for w in WANTS] + ['trans:' + t for t in TRANSITIONS] +
-            ['indent:0', 'indent:2', 'indent:4', 'indent:8', 'dedent-prose', 'corpus:repo', 'tabs', 'program-layout'] +
+            ['indent:0', 'indent:2', 'indent:4', 'indent:8', 'dedent-prose', 'corpus:repo', 'tabs', 'program-layout',
+             'reindent-after-want:less', 'reindent-after-want:more'] +
             (['corpus:stdlib'] if tier == 'thorough' else []))
 
 
@@ -119,12 +121,15 @@ def gen_docstring(rng, ctx=None):
     out = []
     levels = [0, 0, 4, 8, 2]
     cur = rng.choice(levels)
+    last = cur          # indentation of the most recent source / want block
     i = 0
     prev = 'text'
     cells = []
+    f15 = []
     n = rng.randint(1, 9)
     for _ in range(n):
-        kind = rng.choice(['prose', 'stmt', 'stmt', 'stmt', 'stmt', 'blank', 'reindent', 'dedent_prose'])
+        kind = rng.choice(['prose', 'stmt', 'stmt', 'stmt', 'stmt', 'blank', 'reindent', 'dedent_prose',
+                           'reindent_after_want'] + (['reindent_after_src'] if rng.random() < 0.15 else []))
         if kind == 'prose':
             if prev in ('src', 'want'):
                 out.append(('text', ''))
@@ -136,10 +141,29 @@ def gen_docstring(rng, ctx=None):
             prev = 'text'
         elif kind == 'dedent_prose':
             # de-indented line directly under source or want: text by definition
-            if prev in ('src', 'want') and cur >= 2:
-                out.append(('text', ' ' * (cur - 2) + 'dedented prose.'))
+            if prev in ('src', 'want') and last >= 2:
+                out.append(('text', ' ' * (last - 2) + 'dedented prose.'))
                 prev = 'text'
                 cells.append('dedent-prose')
+        elif kind == 'reindent_after_src':
+            # finding F15: a prompt directly under a one-line source statement at another indentation
+            if prev == 'src' and out and out[-1][1].lstrip().startswith('>>> ') and not f15:
+                cur = rng.choice([x for x in levels if x != cur])
+                i += 1
+                f15.append(len(out))
+                out.append(('src', ' ' * cur + '>>> q%d = %d' % (i, i)))
+                last = cur
+        elif kind == 'reindent_after_want':
+            # every example carries its own indentation: the next prompt may sit directly under a want
+            # (no blank line) at a shallower or deeper level
+            if prev == 'want':
+                new = rng.choice([x for x in levels if x != cur])
+                cells.append('reindent-after-want:' + ('less' if new < cur else 'more'))
+                cur = new
+                i += 1
+                out.append(('src', ' ' * cur + '>>> r%d = %d' % (i, i)))
+                last = cur
+                prev = 'src'
         elif kind == 'reindent':
             if prev in ('src', 'want'):
                 out.append(('text', ''))
@@ -157,6 +181,7 @@ def gen_docstring(rng, ctx=None):
             cells.append('shape:' + shape)
             cells.append('indent:%d' % cur)
             prev = 'src'
+            last = cur
             if rng.random() < 0.6 and shape not in ('comment',):
                 wk = rng.choice(WANTS)
                 wl = want_lines(rng, wk, i, src[-1])
@@ -165,7 +190,7 @@ def gen_docstring(rng, ctx=None):
                 if not (wk == 'bare_ellipsis' and wl != ['...']):
                     cells.append('want:' + wk)
                 prev = 'want'
-    return out, cells
+    return out, cells, f15
 
 
 def parser_labels(parts):
@@ -184,7 +209,7 @@ def parser_labels(parts):
 def check_generated(ctx, index, seed):
     from xdoctest import parser as xparser
     rng = random.Random(seed)
-    labeled, cells = gen_docstring(rng)
+    labeled, cells, f15 = gen_docstring(rng)
     while labeled and labeled[-1][1].strip() == '':
         labeled.pop()
     if not labeled:
@@ -199,7 +224,7 @@ def check_generated(ctx, index, seed):
         if tdoc != doc:
             doc = tdoc
             cells.append('tabs')
-    case = {'index': index, 'case_seed': seed, 'doc': doc}
+    case = {'index': index, 'case_seed': seed, 'doc': doc, 'reindent_after_source': f15}
     ctx.evaluation()
     kinds = set(lab for lab, _ in labeled)
     if kinds == {'text', 'src', 'want'}:
@@ -225,9 +250,11 @@ def check_generated(ctx, index, seed):
         line = labeled[k][1] if k < len(labeled) else '<past the end>'
         ctx.violation('label', 'line %d %r is %s by construction but the parser assigned it to %s\n--- docstring ---\n%s' % (
             k, line, exp[k] if k < len(exp) else None, got[k] if k < len(got) else None, doc), case,
-            expected=exp, observed=got)
+            expected=exp, observed=got, first_difference=k)
         return
     ctx.event('label_sequences_compared')
+    if f15:
+        ctx.cell('reindent-after-source-labelled-source')
     for c in cells:
         ctx.cell(c)
     prev = None
@@ -380,6 +407,10 @@ def replay(case, ctx):
 
 
 def classify(v):
+    # F15 by mechanism: the first line the parser labels differently is a prompt that sits directly under a source
+    # line at another indentation
+    if v.get('mechanism') == 'label' and v.get('first_difference') in (v['case'].get('reindent_after_source') or ()):
+        return 'prompt-reindented-after-source'
     return None
 
 
